@@ -8,14 +8,14 @@ CONSTANTS
   Vals = {2}
   LdtVals = {2}
   LDT0 = 1
-  Procs <- Procs1
+  Procs <- Procs2
   ProcTopics <- PTopA
-  ProcParams <- PParNone
+  ProcParams <- PParLdt
   FreeNodes = FALSE
   Delays <- Delay2
   Offsets <- Off0
-  MaxPub = 3
-  Horizon = 2
+  MaxPub = 4
+  Horizon = 3
   Budgets = {1}
   Kinds = {"sink", "relay", "follower"}
   Acyclic = FALSE
